@@ -344,7 +344,10 @@ register(
 
 # ------------------------------------------------------------------------------------------ C14
 
-def gen_heter_script(rng, name, max_ops=35):
+def gen_heter_script(rng, name, max_ops=35, ncb=5, lvalue_enqueue=False):
+    """ncb: number of callback kinds of the harness variant; argument kind 6 (a Big lvalue) is always dispatched
+    directly, and enqueued only if lvalue_enqueue (on the variant with a non-const reference prototype that is
+    the known finding D10)"""
     lines = ["--- %s" % name]
     nk = rng.randint(1, 2)
     issued = 0
@@ -353,7 +356,7 @@ def gen_heter_script(rng, name, max_ops=35):
         r = rng.random()
         k = rng.randrange(nk)
         if r < 0.22:
-            kind = rng.randrange(5)
+            kind = rng.randrange(ncb)
             lines.append("do hlisten %d %d %d" % (k, kind, kind * 100 + rng.randint(1, 9)))
             owner[issued] = k
             issued += 1
@@ -362,9 +365,9 @@ def gen_heter_script(rng, name, max_ops=35):
             mine = [h for h, o in owner.items() if o == k]
             lines.append("do hremove %d %d" % (k, rng.choice(mine) if mine and rng.random() < 0.85 else issued + rng.randint(0, 2)))
         elif r < 0.40:
-            lines.append("do hdispatch %d %d %d" % (k, rng.randrange(6), rng.randint(0, 20)))
+            lines.append("do hdispatch %d %d %d" % (k, rng.randrange(7), rng.randint(0, 20)))
         elif r < 0.70:
-            lines.append("do henqueue %d %d %d" % (k, rng.randrange(6), rng.randint(0, 20)))
+            lines.append("do henqueue %d %d %d" % (k, rng.randrange(7 if lvalue_enqueue else 6), rng.randint(0, 20)))
         elif r < 0.78:
             lines.append("do hprocessone")
         elif r < 0.86:
@@ -378,23 +381,31 @@ def gen_heter_script(rng, name, max_ops=35):
 
 def heter_suite(ctx, search=False):
     quick = ctx.quick()
-    jobs = [dict(src="seq_heter.cpp", out_name="seq_heter_o%d" % o, defines=["VH_ORDER=%d" % o]) for o in (0, 1)]
+    jobs = [dict(src="seq_heter.cpp", out_name="seq_heter_o%d" % o, defines=["VH_ORDER=%d" % o]) for o in (0, 1, 2)]
     if not quick:
         jobs.append(dict(src="seq_heter.cpp", out_name="seq_heter_o0_clang11", defines=["VH_ORDER=0"], cxx="clang++-14", std="c++11"))
     builds = vlib.build_many(jobs)
     ctx.rule = ("random histories on HeterEventQueue over 5 prototypes (void(), void(int), void(const std::string&), void(const Big&) with Big a 70+ byte non-trivial type, void(long) "
-                "overlapping with void(int)), two listing orders; callbacks / arguments / predicates of every kind incl. convertible ones (long, short -> first listed match); "
+"overlapping with void(int)), two listing orders, and a third list with a non-const reference prototype void(Big&) listed before void(const Big&); "
+                "callbacks / arguments / predicates of every kind incl. convertible ones (long, short -> first listed match) and lvalue arguments; "
                 "queued events of different prototypes in recycled slots; processIf with predicates of every prototype; the library's own prototype selection is compared with "
                 "first-match over the CanInvoke matrix measured from the compiler; ASan/UBSan on; distinct = distinct canonical output; "
                 "non-trivial = a processIf over a queue holding events of at least two prototypes")
     rng = random.Random("%d/C14" % ctx.seed)
     n = (250 if quick else 6000) * (3 if search else 1)
     import suiterun
-    scripts = [t for (_, t) in suiterun.load_corpus("C14")] + [gen_heter_script(rng, "C14_%d_%d" % (ctx.seed, i)) for i in range(n)]
+    corpus = [t for (_, t) in suiterun.load_corpus("C14")]
+    scripts_std = corpus + [gen_heter_script(rng, "C14_%d_%d" % (ctx.seed, i), lvalue_enqueue=True) for i in range(n)]
+    # variant o2: callback kind 5 (Big&) exists; lvalue enqueues (known finding D10) only in every sixth script
+    scripts_o2 = corpus + \
+                 [gen_heter_script(rng, "C14o2_%d_%d" % (ctx.seed, i), ncb=6, lvalue_enqueue=(i % 6 == 0)) for i in range(n)]
+    d10_reported = False
     for (ok, exe, log), job in zip(builds, jobs):
         ctx.oblige("harness %s builds from /repo/include" % job["out_name"], ok, log[-1500:])
         if not ok:
             continue
+        o2 = job["out_name"] == "seq_heter_o2"
+        scripts = scripts_o2 if o2 else scripts_std
         rc, mat, e = vlib.sh([exe, "--matrix"], timeout=30)
         B = 200
         for off in range(0, len(scripts), B):
@@ -422,9 +433,15 @@ def heter_suite(ctx, search=False):
                     if il2 != ml2:
                         d = next(i for i in range(max(len(il2), len(ml2))) if (il2[i] if i < len(il2) else None) != (ml2[i] if i < len(ml2) else None))
                         why = "line %d implementation=%r model=%r" % (d, il2[d] if d < len(il2) else None, ml2[d] if d < len(ml2) else None)
+                maybe_d10 = o2 and why and any(l.startswith("do henqueue") and l.split()[3] == "6" for l in sc.splitlines())
+                if why and maybe_d10 and d10_reported:
+                    # one more script with an lvalue enqueue on the non-const reference variant: the finding is
+                    # reported (and classified on its minimal form) once; these scripts do not use up the report cap
+                    ctx.cov["d10_scripts"] += 1
+                    continue
                 if why:
                     ctx.cov["failures"] += 1
-                    if ctx.cov["failures"] <= 3:
+                    if ctx.cov["failures"] <= 3 or maybe_d10:
                         def bad(sub):
                             t = "--- x\n" + "\n".join(sub) + "\n"
                             r2, o2, e2 = vlib.run_harness(exe, t, timeout=60)
@@ -436,6 +453,14 @@ def heter_suite(ctx, search=False):
                         small = vlib.ddmin(body, bad) if bad(body) else body
                         ctx.fail("violation", why, "--- %s\n# %s ; hlisten K cbkind cb | henqueue K argkind v | hprocessif predkind m r\n%s\n" % (name, job["out_name"], "\n".join(small)),
                                  job["out_name"])
+                        ops = [l.split()[1:] for l in small if l.startswith("do ")]
+                        if o2 and ops and all(t[0] in ("hlisten", "hprocess", "hprocessone") or (t[0] == "henqueue" and t[2] == "6") for t in ops) \
+                                and any(t[0] == "henqueue" for t in ops):
+                            # minimal form: listeners, enqueues of a Big lvalue, processing - nothing else
+                            ctx.failures[-1]["classifier"] = "heter.enqueue:lvalue-selects-nonconst-ref-prototype"
+                            ctx.cov["failures"] -= 1
+                            ctx.cov["d10_scripts"] += 1
+                            d10_reported = True
                     continue
                 ctx.cov["traces_validated"] += 1
                 tags = set()
@@ -453,7 +478,7 @@ def heter_suite(ctx, search=False):
 
 register(
     "C14",
-    lean_modules=["EventppVerif.Properties.C14"],
+    lean_modules=["EventppVerif.Properties.C14", "EventppVerif.Properties.C14s"],
     suites=[heter_suite],
     level_text="Lean theorems on the heterogeneous model (first listed callable prototype is selected; an invocation/dispatch/enqueue reaches exactly the callbacks bound to that prototype; "
                "queued events of all prototypes are consumed exactly once in FIFO order; processIf touches only events filed under prototypes its predicate is callable with and never reads a slot as another type) "
